@@ -429,6 +429,11 @@ func runC13(s *Sim) {
 		// no feedback in these runs: a rule that writes into its own scope may oscillate for ever once a tick has set it
 		// off, and the clock moves below have no step cap
 		feedback = false
+		// the process's time zone must not matter (the rule stamps its triggers with time.Now())
+		offs := []int{0, 3600, -5 * 3600, 9 * 3600, -12 * 3600, 14 * 3600, 5*3600 + 1800}
+		oldLocal := time.Local
+		time.Local = time.FixedZone("SIM", offs[wl.Draw(len(offs))])
+		s.cleanup = append(s.cleanup, func() { time.Local = oldLocal })
 		sp := schedSpec{}
 		pickMin := func() int {
 			if wl.Chance(1, 5) {
